@@ -539,6 +539,7 @@ def run_c03(ctx, spec, out):
         wb, flags = small_world(rng, schema, {"nhosts": [1, 2, 4, 6], "flavour": flav})
         # give every object a plausible last_check in the past
         now = T0
+        tp_in = {r["name"]: r.get("in", 1) for r in wb["tables"]["timeperiods"]["rows"]}
         for t in ("hosts", "services"):
             for r in wb["tables"][t]["rows"]:
                 r["last_check"] = T0 - rng.choice([500, 200, 100, 50]) if rng.random() < 0.75 else 0     # 0 = never checked
@@ -547,8 +548,13 @@ def run_c03(ctx, spec, out):
                 r["is_executing"] = 0
                 if "modified_attributes_list" in r:
                     r["modified_attributes_list"] = modattr_list(int(r.get("modified_attributes", 0) or 0))
-                r["check_period"] = "24x7"
+                r["check_period"] = rng.choice(["24x7", "24x7", "workhours"])
                 r["notification_period"] = rng.choice(["24x7", "workhours"])
+                # what the core derives from the period: the object is in its period exactly when the period is active
+                if "in_check_period" in r:
+                    r["in_check_period"] = tp_in.get(r["check_period"], 1)
+                if "in_notification_period" in r:
+                    r["in_notification_period"] = tp_in.get(r["notification_period"], 1)
         cfg = {"update_interval": rng.choice([5, 10]), "update_offset": rng.choice([1, 3]), "max_parallel_peer_connections": 1, "backend_keepalive": False,
                "idle_timeout": 1000000, "sync_is_executing": rng.random() < 0.5, "stale_backend_timeout": 100000}
         h = History(schema, nid)
@@ -579,10 +585,25 @@ def run_c03(ctx, spec, out):
                     line = {"op": "mutate", "backend": pid, "changes": [{"table": t, "key": key, "set": ch}]}
                     h.both(line)
                     hs.both(line)
-            if rng.random() < 0.15:
-                # timeperiod flip
-                tp = rng.choice(["24x7", "workhours"])
-                line = {"op": "mutate", "backend": pid, "changes": [{"table": "timeperiods", "key": {"name": tp}, "set": {"in": rng.choice([0, 1])}}]}
+            if rng.random() < 0.2:
+                # timeperiods flip (one, or both in the same minute): the core changes in_check_period / in_notification_period of
+                # the objects that use the period, without a new check result
+                changes = []
+                for tp in rng.choice([["24x7"], ["workhours"], ["24x7", "workhours"], ["workhours", "24x7"]]):
+                    val = 1 - tp_in.get(tp, 1)
+                    tp_in[tp] = val
+                    changes.append({"table": "timeperiods", "key": {"name": tp}, "set": {"in": val}})
+                    for t, key, row in objs:
+                        upd = {}
+                        if row.get("check_period") == tp and "in_check_period" in row:
+                            upd["in_check_period"] = val
+                        if row.get("notification_period") == tp and "in_notification_period" in row:
+                            upd["in_notification_period"] = val
+                        if upd:
+                            # the core computes these when it is asked: no last_update, no new check result
+                            row.update(upd)
+                            changes.append({"table": t, "key": key, "set": upd})
+                line = {"op": "mutate", "backend": pid, "changes": changes}
                 h.both(line)
                 hs.both(line)
             d = rng.choice([5, 10, 11, 30, 61, 70])
